@@ -16,7 +16,7 @@ sys.path.insert(0, os.path.dirname(os.path.dirname(os.path.abspath(__file__))))
 from harness import gen, drive  # noqa: E402
 
 TABLE_OF = {
-    "create_junction": "junction", "create_pipe_from_parameters": "pipe", "create_valve": "valve",
+    "create_junction": "junction", "create_pipe_from_parameters": "pipe", "create_pipe": "pipe", "create_valve": "valve",
     "create_flow_control": "flow_control", "create_pump": "pump", "create_compressor": "compressor",
     "create_ext_grid": "ext_grid", "create_sink": "sink", "create_source": "source",
     "create_mass_storage": "mass_storage", "create_heat_consumer": "heat_consumer",
@@ -95,6 +95,166 @@ def recreate_spec(rng, spec):
     out = copy.deepcopy(spec)
     out["ops"] = js + ps + rest
     return out
+
+
+BULK = {  # single create function -> (bulk function, {single kwarg: bulk kwarg}), everything passed as lists
+    "create_junction": ("create_junctions", {}),
+    "create_pipe_from_parameters": ("create_pipes_from_parameters", {"from_junction": "from_junctions",
+                                                                      "to_junction": "to_junctions"}),
+    "create_pipe": ("create_pipes", {"from_junction": "from_junctions", "to_junction": "to_junctions"}),
+    "create_sink": ("create_sinks", {"junction": "junctions"}),
+    "create_source": ("create_sources", {"junction": "junctions"}),
+    "create_ext_grid": ("create_ext_grids", {"junction": "junctions"}),
+    "create_valve": ("create_valves", {"junction": "junctions", "element": "elements"}),
+    "create_flow_control": ("create_flow_controls", {"from_junction": "from_junctions", "to_junction": "to_junctions"}),
+    "create_heat_exchanger": ("create_heat_exchangers", {"from_junction": "from_junctions", "to_junction": "to_junctions"}),
+}
+BULK_DEFAULTS = {"create_junction": {"height_m": 0.0, "in_service": True},
+                 "create_pipe_from_parameters": {"loss_coefficient": 0.0, "sections": 1, "u_w_per_m2k": 0.0,
+                                                 "in_service": True, "k_mm": 0.2},
+                 "create_pipe": {"loss_coefficient": 0.0, "sections": 1, "in_service": True},
+                 "create_sink": {"scaling": 1.0, "in_service": True}, "create_source": {"scaling": 1.0, "in_service": True},
+                 "create_ext_grid": {"in_service": True}, "create_valve": {"opened": True, "loss_coefficient": 0.0},
+                 "create_flow_control": {"control_active": True, "in_service": True},
+                 "create_heat_exchanger": {"loss_coefficient": 0.0, "in_service": True}}
+
+
+def bulk_spec(rng, spec):
+    """the same net built through the bulk create functions: all elements of a kind in ONE call, listed in a shuffled
+    order, every parameter as a per-element list (std types included).  Kinds without a bulk twin keep single calls."""
+    groups, rest = {}, []
+    for fn, kw in spec["ops"]:
+        if fn in BULK:
+            groups.setdefault(fn, []).append(copy.deepcopy(kw))
+        else:
+            rest.append([fn, copy.deepcopy(kw)])
+    ops = []
+    for fn in ("create_junction", "create_pipe_from_parameters", "create_pipe", "create_valve", "create_flow_control",
+               "create_heat_exchanger", "create_ext_grid", "create_sink", "create_source"):
+        rows = groups.get(fn)
+        if not rows:
+            continue
+        rng.shuffle(rows)
+        keys = sorted(set(k for r in rows for k in r) | set(BULK_DEFAULTS.get(fn, {})))
+        bfn, ren = BULK[fn]
+        kw = {}
+        for k in keys:
+            col = [r.get(k, BULK_DEFAULTS.get(fn, {}).get(k)) for r in rows]
+            if all(v is None for v in col):
+                continue
+            if any(v is None for v in col):       # no list form for a partly absent parameter: keep single calls
+                kw = None
+                break
+            kw[ren.get(k, k)] = col
+        if kw is None:
+            rest = [[fn, r] for r in rows] + rest
+            continue
+        if fn == "create_junction":
+            kw["nr_junctions"] = len(rows)
+        ops.append([bfn, kw])
+    out = copy.deepcopy(spec)
+    # junctions first, then pipes, then the rest (single calls keep their order)
+    out["ops"] = ops[:1] + [o for o in ops[1:] if o[0].startswith("create_pipes")] + \
+        [o for o in ops[1:] if not o[0].startswith("create_pipes")] + rest
+    return out
+
+
+STD_TYPES = ["80_GGG", "200_GGG", "125_GGG", "100_GGG", "150_GGG"]
+
+
+def std_type_spec(order):
+    """a tree net whose pipes use different std types; pipes are listed in [order] (identity = pipe label)"""
+    k = len(STD_TYPES)
+    ops = [["create_junction", {"index": j, "pn_bar": 5.0, "tfluid_k": 300.0}] for j in range(k + 1)]
+    for i in order:
+        ops.append(["create_pipe", {"index": 10 + i, "from_junction": i // 2, "to_junction": i + 1, "std_type": STD_TYPES[i],
+                                    "length_km": 0.3 + 0.1 * i}])
+    ops.append(["create_ext_grid", {"index": 0, "junction": 0, "p_bar": 5.0, "t_k": 300.0}])
+    for i in range(k):
+        ops.append(["create_sink", {"index": i, "junction": i + 1, "mdot_kg_per_s": 0.5 + 0.25 * i}])
+    return {"fluid": "water", "ops": ops}
+
+
+def two_supply_spec(labels, swap_egs=False):
+    """a line of junctions (row order = position along the line, labels as given) fed from both ends by ext grids with
+    DIFFERENT pressure and temperature, plus a second ext grid on the first junction with a third set-point"""
+    n = len(labels)
+    ops = [["create_junction", {"index": l, "pn_bar": 5.0, "tfluid_k": 320.0}] for l in labels]
+    for i in range(n - 1):
+        ops.append(["create_pipe_from_parameters", {"index": i, "from_junction": labels[i], "to_junction": labels[i + 1],
+                                                     "length_km": 0.4, "inner_diameter_mm": 80.0, "k_mm": 0.1,
+                                                     "sections": 1 + i % 2, "u_w_per_m2k": 5.0, "text_k": 283.15}])
+    egs = [["create_ext_grid", {"index": 0, "junction": labels[0], "p_bar": 6.0, "t_k": 350.0}],
+           ["create_ext_grid", {"index": 1, "junction": labels[-1], "p_bar": 4.5, "t_k": 310.0}],
+           ["create_ext_grid", {"index": 2, "junction": labels[0], "p_bar": 5.0, "t_k": 330.0}]]
+    ops += egs[::-1] if swap_egs else egs
+    for i in range(1, n - 1):
+        ops.append(["create_sink", {"index": i, "junction": labels[i], "mdot_kg_per_s": 0.3 * i}])
+    return {"fluid": "water", "ops": ops}
+
+
+def fixed_setpoint_oracle(ctx, spec, kw, tag):
+    """every junction with in-service ext grids reports the mean of THEIR pressures"""
+    net = gen.build(spec)
+    st, msg = drive.run(net, **kw)
+    if st != "ok":
+        return
+    eg = net.ext_grid[net.ext_grid.in_service]
+    for j, grp in eg.groupby("junction"):
+        for col, rcol in (("p_bar", "p_bar"), ("t_k", "t_k")):
+            if rcol == "t_k" and kw.get("mode") != "hydraulics":
+                continue
+            exp = float(grp[col].mean())
+            got = float(net.res_junction[rcol].at[j])
+            if not abs(got - exp) <= 1e-9:
+                ctx.violation({"monitor": "fixed_setpoint", "table": "res_junction", "column": rcol},
+                              "junction %d carries ext grids with %s %r but reports %s = %r (junction labels in row "
+                              "order %r)" % (j, col, grp[col].tolist(), rcol, got, net.junction.index.tolist()),
+                              {"kind": tag, "net": spec, "options": kw})
+                return
+
+
+def monitor_corpus(ctx):
+    """fixed families that run first in every run (no dependence on VERIF_SEED):
+       * std-type nets built by single calls vs create_pipes with a std-type LIST in several listing orders
+       * two (three) ext grids with different set-points on a line whose junction labels are reversed / shuffled /
+         large, vs the contiguously labelled twin; permuted junction table; bulk re-creation; set-point oracle"""
+    rng = ctx.rng
+    kw = {"use_numba": False, "mode": "hydraulics"}
+    k = len(STD_TYPES)
+    ref = std_type_spec(list(range(k)))
+    for order in ([2, 0, 4, 1, 3], [4, 3, 2, 1, 0], [1, 2, 3, 4, 0], list(range(k))):
+        single = std_type_spec(order)
+        b = bulk_spec(rng, single)
+        # keep the listing order of this trial inside the bulk call
+        for op in b["ops"]:
+            if op[0] == "create_pipes":
+                pos = [op[1]["index"].index(10 + i) for i in order]
+                op[1] = {kk: [v[p] for p in pos] for kk, v in op[1].items()}
+        for name, sp in (("single", single), ("bulk", b)):
+            status, diffs, sa, sb = compare("recreate", ref, lambda sp=sp: gen.build(sp), kw)
+            ctx.count("monitor_corpus_stdtype_" + status)
+            ctx.case({"monitor": "stdtype_" + name, "order": order}, order != sorted(order))
+            if status in ("diff", "outcome"):
+                report(ctx, "recreate", ref, {"net_b": sp, "built": name + " calls, pipes listed in order %r" % (order,)},
+                       kw, diffs, snaps=list(LAST_SNAPS) if status == "diff" else ())
+    kw = {"use_numba": False, "mode": "hydraulics"}      # fixed p and T are both visible in res_junction
+    base = two_supply_spec([0, 1, 2, 3, 4])
+    for labels, swap in (([4, 3, 2, 1, 0], False), ([7, 2, 9, 0, 5], True), ([100004, 3, 100001, 8, 100000], False),
+                         ([1, 0, 3, 2, 4], True)):
+        sp = two_supply_spec(labels, swap)
+        maps = {"junction": dict(zip(range(5), labels)), "pipe": {i: i for i in range(4)},
+                "ext_grid": {i: i for i in range(3)}, "sink": {i: i for i in range(1, 4)}}
+        status, diffs, sa, sb = compare("relabel", base, lambda sp=sp: gen.build(sp), kw, index_map=maps)
+        ctx.count("monitor_corpus_two_supply_" + status)
+        ctx.case({"monitor": "two_supply", "labels": labels}, True)
+        if status in ("diff", "outcome"):
+            report(ctx, "relabel", base, {"net_b": sp, "maps": {t: [[a, c] for a, c in m.items()] for t, m in maps.items()}},
+                   kw, diffs, snaps=list(LAST_SNAPS) if status == "diff" else ())
+        fixed_setpoint_oracle(ctx, sp, kw, "two_supply")
+        for kind in ("permute", "recreate"):
+            one_case(ctx, kind, sp, rng, kw)
+        one_case(ctx, "bulk", sp, rng, kw)
 
 
 def permute_rows(net, seed):
@@ -239,9 +399,10 @@ def one_case(ctx, kind, spec, rng, kw):
         nontrivial = any(k != v for m in maps.values() for k, v in m.items())
         status, diffs, sa, sb = compare(kind, spec, lambda: gen.build(spec_b), kw, index_map=maps)
         extra = {"net_b": spec_b, "maps": {t: [[k, v] for k, v in m.items()] for t, m in maps.items()}}
-    elif kind == "recreate":
-        spec_b = recreate_spec(rng, spec)
+    elif kind in ("recreate", "bulk"):
+        spec_b = recreate_spec(rng, spec) if kind == "recreate" else bulk_spec(rng, spec)
         nontrivial = spec_b["ops"] != spec["ops"]
+        kind = "recreate"
         status, diffs, sa, sb = compare(kind, spec, lambda: gen.build(spec_b), kw)
         extra = {"net_b": spec_b}
     else:
@@ -275,7 +436,7 @@ def monitors(ctx, widen=False):
         if prof != "heat" and rng.random() < 0.5:
             add_pi_valves(rng, spec, rng.randint(2, 4))
         kw = options_for(spec, rng)
-        for kind in ("relabel", "permute", "recreate"):
+        for kind in ("relabel", "permute", "recreate", "bulk"):
             try:
                 one_case(ctx, kind, spec, rng, kw)
             except Exception as e:  # noqa: BLE001
